@@ -117,6 +117,7 @@ def run_real(states, grid):
             rec["actions"].append(action)
 
     act.strategy = S()
+    rec["act"] = act
     act.run(print_result=False)
     return bars, rec
 
